@@ -51,17 +51,17 @@ type req struct {
 }
 
 type episode struct {
-	mu      sync.Mutex
-	pending []*req
-	wake    chan struct{}
-	log     []callRec
-	evs     []evRec
-	call    int
+	mu       sync.Mutex
+	pending  []*req
+	wake     chan struct{}
+	log      []callRec
+	evs      []evRec
+	call     int
 	draining bool
-	ctx     context.Context
-	cancel  context.CancelFunc
-	nodes   []*node
-	polls   int
+	ctx      context.Context
+	cancel   context.CancelFunc
+	nodes    []*node
+	polls    int
 }
 
 func newEpisode() *episode {
